@@ -505,6 +505,9 @@ def cli_alphabet():
     A['nohdr_trailer'] = lambda i, m: env(i, noh=True, t=[], st=(0, 'OK'))
     A['badmd_hdr'] = lambda i, m: env(i, m=m, b='x', md=[['h-bin', '***']])
     A['badmd_trailer'] = lambda i, m: env(i, m=m, st=(0, 'OK'), t=[['t-bin', '***']])
+    # undecodable header metadata on an envelope that also ends the call (trailers-only replies)
+    A['badmd_hdr_close_err'] = lambda i, m: env(i, m=m, md=[['h-bin', '***']], st=(7, 'denied'), t=[])
+    A['badmd_hdr_close_ok'] = lambda i, m: env(i, m=m, md=[['h-bin', '***']], st=(0, 'OK'), t=[])
     A['rawbody'] = lambda i, m: env(i, m=m, braw='@7:%d' % (i + 11))
     A['body_empty'] = lambda i, m: env(i, m=m, b='')                                    # a message that encodes to zero bytes
     A['body_empty_trailer'] = lambda i, m: env(i, m=m, b='', t=[])
